@@ -15,13 +15,25 @@ LEVEL = 'exploration'
 RULE = (
     'cases = one call of scattering_angles_with_gravity / scattering_angle_in_yz_plane on a generated '
     '(incident beam at a forced tilt out of the horizontal, detector directions over the sphere, wavelengths '
-    '0..100 angstrom dense/2-d/binned in float32/float64, gravity of magnitude 1e-11..100 m/s^2 in a random '
-    'direction) tuple, or one tilt sweep of the same configuration; distinct = (function, code path, tilt '
-    'class, |g| class, dtype, layout, units) signatures; non-trivial unless axis-aligned+scalar'
+    '0..100 angstrom dense/2-d/binned in float32/float64, gravity of a fixed magnitude {1e-11, 1, 9.80665, 100} '
+    'm/s^2 or of a magnitude log-uniform over 1e-149..100 m/s^2 given in m/s^2, cm/s^2, mm/s^2 or km/s^2, in a '
+    'random direction) tuple; or one call on every broadcast relation scipp allows between the dims of '
+    'wavelength (dense / binned) and scattered_beam (equal, transposed, either a strict subset of the other incl. '
+    '0-d, overlapping, disjoint) on both code paths and the reflectometry variant; or one tilt sweep of the same '
+    'configuration; distinct = (function, code path, tilt class, |g| class, dtype, layout, units) signatures; '
+    'non-trivial unless axis-aligned+scalar. Domain rule for |g|: a gravity vector whose magnitude, as a number '
+    'in its own unit, is below 1e-150 has a squared norm that underflows float64 (the same kind of range limit '
+    'as the float32 exponent range): such calls are driven in every run (1e-300..1e-155) but only counted, with '
+    'the number of non-finite results, never judged'
 )
 ASSUMPTIONS = [
     'the documented construction (e_y = -g/|g|, beam raised by delta along e_y) is the specification',
     'gravity of exactly zero magnitude has no direction and is outside the domain (counted, not judged)',
+    'gravity whose magnitude in its own unit is below 1e-150 (|g|^2 underflows float64) is outside the judged '
+    'domain: a floating-point range limit of the squared norm; counted together with the number of non-finite '
+    'results, not judged',
+    'incident_beam may only carry dims that scattered_beam or wavelength also carry (the result has the union '
+    'of the dims of the three operands; binned iff the wavelength is binned, with the bins of the wavelength)',
 ]
 TOL64 = 1e-12
 TOL32 = 1e-5
@@ -29,7 +41,12 @@ TILTS = [0.0, 1e-13, 1e-12, 1e-11, 1e-10, 1e-9, 1e-7, 1e-5, 1e-3, 1e-1, 1.0]
 GMAGS = [1e-11, 1.0, 9.80665, 100.0]
 LEN_UNITS = ['m', 'mm', 'cm']
 WAV_UNITS = ['angstrom', 'nm', 'm']
-G_UNITS = ['m/s^2', 'mm/s^2', 'cm/s^2']
+G_UNITS = ['m/s^2', 'mm/s^2', 'cm/s^2', 'km/s^2']
+# |g| classes by the numeric value in the unit gravity is given in (log10 bounds); the last band ends at 100 m/s^2
+G_FLOOR = 1e-150  # below: |g|^2 underflows float64 -> outside the judged domain (counted)
+GBANDS = [('1e-149..1e-100', -149.0, -100.0), ('1e-100..1e-50', -100.0, -50.0), ('1e-50..1e-20', -50.0, -20.0),
+          ('1e-20..1e-12', -20.0, -12.0), ('1e-12..1e-6', -12.0, -6.0), ('1e-6..100 m/s^2', -6.0, None)]
+DEEP_BAND = ('1e-300..1e-155 (|g|^2 underflows)', -300.0, -155.0)
 
 _C = None
 
@@ -74,12 +91,91 @@ def construction(b1, b2, lam_si, g, u_b2_factor, sign=+1):
     }
 
 
+def _np_broadcast(values, dims, to_dims, to_shape):
+    """numpy view of ``values`` (dims ``dims`` + optional trailing element axes) laid out along ``to_dims``."""
+    values = np.asarray(values)
+    dims, to_dims = list(dims), list(to_dims)
+    extra = values.ndim - len(dims)
+    order = [d for d in to_dims if d in dims]
+    if set(order) != set(dims):
+        raise ValueError(f'operand dims {dims} are not part of the result dims {to_dims}')
+    v = np.transpose(values, [dims.index(d) for d in order] + list(range(len(dims), values.ndim)))
+    idx = tuple(slice(None) if d in dims else None for d in to_dims) + (slice(None),) * extra
+    return np.broadcast_to(v[idx], tuple(to_shape) + values.shape[len(dims):])
+
+
+def _bin_ranges(v):
+    c = v.bins.constituents
+    return np.asarray(c['begin'].values), np.asarray(c['end'].values)
+
+
+def elements_like(op, res):
+    """Values of operand ``op`` for each element (dense result) / each event (binned result) of ``res``, in the
+    order of ``ops.result_values(res)``: the operand is broadcast over the dims of the result by dim label
+    (any order, any subset); a binned operand contributes the events of its bin to every result bin it is
+    broadcast to."""
+    if not ops.is_binned(res):
+        if ops.is_binned(op):
+            raise ValueError('binned operand but dense result')
+        return _np_broadcast(op.values, op.dims, res.dims, res.shape)
+    rb, re_ = _bin_ranges(res)
+    sizes = (re_ - rb).ravel()
+    if ops.is_binned(op):
+        b, e = _bin_ranges(op)
+        b = _np_broadcast(b, op.dims, res.dims, res.shape).ravel()
+        e = _np_broadcast(e, op.dims, res.dims, res.shape).ravel()
+        if not np.array_equal(e - b, sizes):
+            raise ValueError('bin layouts differ')
+        data = np.asarray(op.bins.constituents['data'].values)
+        return np.concatenate([data[x:y] for x, y in zip(b, e, strict=True)] + [data[:0]])
+    full = _np_broadcast(op.values, op.dims, res.dims, res.shape)
+    outer = full.reshape((-1,) + full.shape[len(res.shape):])
+    return np.repeat(outer, sizes, axis=0)
+
+
+def layout_problem(args, res):
+    """The result holds one value per combination of the operands' elements: its dims are the union of the dims
+    of the three operands, it is binned iff the wavelength is, with the bins of the wavelength."""
+    want = {}
+    for k in ('incident_beam', 'scattered_beam', 'wavelength'):
+        want.update(dict(args[k].sizes))
+    if dict(res.sizes) != want:
+        return f'result sizes {dict(res.sizes)} but the operands span {want}'
+    w = args['wavelength']
+    if ops.is_binned(w) != ops.is_binned(res):
+        return 'wavelength is ' + ('binned' if ops.is_binned(w) else 'dense') + ' but the result is not'
+    if ops.is_binned(w):
+        b, e = _bin_ranges(w)
+        rb, re_ = _bin_ranges(res)
+        if not np.array_equal(_np_broadcast(e - b, w.dims, res.dims, res.shape), re_ - rb):
+            return 'the bins of the result do not have the sizes of the (broadcast) bins of the wavelength'
+    return None
+
+
 def _b2_aligned(args, res):
-    """scattered_beam, wavelength[SI] laid out like the result elements."""
-    b2 = ops.align(args['scattered_beam'], res)  # (..., 3)
-    lam = ops.align(args['wavelength'], res).astype(si.LD) * si.factor(ops.elem_unit(args['wavelength']))
-    b1 = ops.align(args['incident_beam'], res)
+    """incident_beam, scattered_beam, wavelength[SI] laid out like the result elements."""
+    b2 = elements_like(args['scattered_beam'], res)  # (..., 3)
+    lam = elements_like(args['wavelength'], res).astype(si.LD) * si.factor(ops.elem_unit(args['wavelength']))
+    b1 = elements_like(args['incident_beam'], res)
     return b1, b2, lam
+
+
+def g_domain(gravity):
+    """None inside the judged domain; else the reason the call is only counted."""
+    gn = float(geom.norm(np.asarray(gravity.values)))
+    if gn == 0:
+        return 'out of domain: |g| = 0'
+    if gn < G_FLOOR:
+        return 'out of judged domain: |g|^2 underflows float64'
+    return None
+
+
+def _nonfinite(res):
+    try:
+        vals = [ops.result_values(r) for r in (res.values() if isinstance(res, dict) else [res])]
+        return any(not np.all(np.isfinite(np.asarray(v, dtype=np.float64))) for v in vals)
+    except Exception:  # noqa: BLE001
+        return True
 
 
 class Monitors:
@@ -106,6 +202,20 @@ class Monitors:
                                f'(incident_beam, scattered_beam, wavelength, gravity) receives other objects as '
                                f'{wrong}', {'function': name, 'wrong': wrong, **self.meta}, function=name)
 
+    def outside(self, ev, name):
+        """Calls with a gravity vector outside the judged domain are counted, never judged."""
+        try:
+            why = g_domain(ev.args['gravity'])
+        except Exception:  # noqa: BLE001
+            self.ctx.oracle_error(name)
+            return True
+        if why is None:
+            return False
+        self.ctx.count(why)
+        if ev.exc is not None or _nonfinite(ev.result):
+            self.ctx.count(why + ': non-finite or refused result')
+        return True
+
     def _common(self, ev):
         args = ev.args
         g = args['gravity']
@@ -119,6 +229,8 @@ class Monitors:
         ctx = self.ctx
         path, self.path = self.path, None
         self.binding(ev, name)
+        if self.outside(ev, name):
+            return
         case = {'function': name, 'path': path, **self.meta,
                 'args': {k: describe(v) for k, v in ev.args.items()}}
         if ev.exc is not None:
@@ -127,6 +239,17 @@ class Monitors:
         try:
             args, g_si, u2, f32 = self._common(ev)
             tt, phi = ev.result['two_theta'], ev.result['phi']
+            problems = {key: layout_problem(args, res) for key, res in (('two_theta', tt), ('phi', phi))}
+        except Exception:  # noqa: BLE001
+            ctx.oracle_error(name)
+            return
+        for key, problem in problems.items():
+            if problem is not None:
+                ctx.event(name)
+                ctx.violation('layout', f'{name}[{key}]: {problem}', case, path=path, output=key)
+        if any(v is not None for v in problems.values()):
+            return
+        try:
             out = {}
             for key, res in (('two_theta', tt), ('phi', phi)):
                 b1, b2, lam = _b2_aligned(args, res)
@@ -157,6 +280,7 @@ class Monitors:
             return
         ctx.event(name)
         ctx.event('path.' + str(path))
+        self.judged_classes(ev, name)
         want_dtype = sc.DType.float32 if f32 else sc.DType.float64
         for key, (d, dl, tol, decided, got, exp, res) in out.items():
             if ops.elem_unit(res) != sc.Unit('rad') or ops.elem_dtype(res) != want_dtype:
@@ -183,17 +307,32 @@ class Monitors:
                               + (' (equals the construction with the beam LOWERED)' if lowered else ''),
                               case2, path=path, output=key, matches_lowered_beam=lowered)
 
+    def judged_classes(self, ev, name):
+        """Evidence: which of the forced input classes actually reached a verdict."""
+        ctx = self.ctx
+        fam = self.meta.get('family')
+        if fam == 'layout' and name != 'beam_aligned_unit_vectors':
+            ctx.event('judged.layout: ' + self.meta.get('wavelength_kind', '?') + ' wavelength, '
+                      + self.meta.get('relation', '?') + ', ' + name)
+        gn = float(geom.norm(np.asarray(ev.args['gravity'].values)))
+        if gn < 1e-12:
+            ctx.event('judged.|g| below 1e-12 in its unit: ' + name)
+            if self.meta.get('tilt') == 0:
+                ctx.event('judged.|g| below 1e-12 in its unit, horizontal beam: ' + name)
+
     def frame(self, ev):
         """beam_aligned_unit_vectors: e_y = -g/|g|, e_z = the normalised projection of b1 perpendicular to e_y,
         e_x = e_y x e_z (documented); refusal only for beams parallel to gravity."""
         name = 'beam_aligned_unit_vectors'
         ctx = self.ctx
+        if self.outside(ev, name):
+            return
         case = {'function': name, **self.meta, 'args': {k: describe(v) for k, v in ev.args.items()}}
         if ev.exc is not None:
             if self.meta.get('parallel_to_gravity') and isinstance(ev.exc, ValueError):
                 ctx.event('frame.refused')
                 return
-            if self.meta.get('family') in ('direct', 'yz', 'tilt_sweep', 'limits', 'frame'):
+            if self.meta.get('family') in ('direct', 'yz', 'tilt_sweep', 'limits', 'frame', 'layout'):
                 ctx.violation('frame_raised', f'{name} raised {type(ev.exc).__name__}: {ev.exc}', case)
             return
         if self.meta.get('parallel_to_gravity'):
@@ -217,6 +356,7 @@ class Monitors:
             ctx.oracle_error(name)
             return
         ctx.event(name)
+        self.judged_classes(ev, name)
         for k in 'xyz':
             gk = np.broadcast_to(got[k], want[k].shape) if got[k].shape != want[k].shape else got[k]
             d = np.max(np.abs(gk - want[k]), axis=-1)
@@ -232,6 +372,8 @@ class Monitors:
         ctx = self.ctx
         tilt = self.meta.get('tilt')
         self.binding(ev, name)
+        if self.outside(ev, name):
+            return
         case = {'function': name, **self.meta, 'args': {k: describe(v) for k, v in ev.args.items()}}
         if ev.exc is not None:
             if isinstance(ev.exc, ValueError) and tilt is not None and tilt > 0:
@@ -250,6 +392,15 @@ class Monitors:
         try:
             args, g_si, u2, f32 = self._common(ev)
             res = ev.result
+            problem = layout_problem(args, res)
+        except Exception:  # noqa: BLE001
+            ctx.oracle_error(name)
+            return
+        if problem is not None:
+            ctx.event(name)
+            ctx.violation('layout', f'{name}: {problem}', case, output='gamma')
+            return
+        try:
             b1, b2, lam = _b2_aligned(args, res)
             exp = construction(b1, b2, lam, g_si, u2)
             got = ops.result_values(res).astype(si.LD)
@@ -263,6 +414,7 @@ class Monitors:
             ctx.oracle_error(name)
             return
         ctx.event(name)
+        self.judged_classes(ev, name)
         if np.any(decided):
             frac = np.where(decided, d / tol, 0)
             worst = float(np.max(frac))
@@ -278,6 +430,15 @@ class Monitors:
 
 # ------------------------------------------------------------- generator ---
 AXIS_KINDS = ('nexus', 'g-y beam-z', 'g-y beam+x', 'g-y beam oblique in xz', 'g any axis, beam any axis')
+
+
+def draw_g(rng, band, ug, hi_si=100.0):
+    """|g| in SI with the numeric value in unit ``ug`` log-uniform over the band (never above hi_si m/s^2)."""
+    fg = float(si.lookup(sc.Unit(ug))[0])
+    lo, hi = band[1], band[2]
+    top = float(np.log10(hi_si / fg))
+    hi = top if hi is None else min(hi, top)
+    return float(10.0 ** rng.uniform(lo, hi) * fg)
 
 
 def make_config(rng, ctx, tilt=None, gmag=None, axis_aligned=False):
@@ -405,16 +566,34 @@ def call(fn, args, mon, positional):
     return fn(**args)
 
 
-def run_case(rng, ctx, K, mon, i=0):
+N_AXIS = len(AXIS_KINDS)
+N_GFORCED = 2 * len(GBANDS)  # every |g| band with a horizontal beam and with a drawn tilt, in every shard
+N_DEEP = 2
+
+
+def run_case(rng, ctx, K, mon, i=0, shard_index=0):
     axis = rng.random() < 0.15
-    if i < len(AXIS_KINDS):
+    if i < N_AXIS:
         axis = AXIS_KINDS[i]  # every axis-aligned kind in every shard
-    cfg = make_config(rng, ctx, axis_aligned=axis, tilt=0.0 if i < len(AXIS_KINDS) else None)
+    units = [LEN_UNITS[rng.integers(0, 3)], WAV_UNITS[rng.integers(0, 3)], G_UNITS[rng.integers(0, len(G_UNITS))]]
+    # gravity class: a fixed magnitude, or a magnitude log-uniform over a band of the numeric value in its unit
+    band, tilt = None, (0.0 if i < N_AXIS else None)
+    k = i - N_AXIS
+    if 0 <= k < N_GFORCED + N_DEEP:
+        band = GBANDS[k // 2] if k < N_GFORCED else DEEP_BAND
+        tilt = 0.0 if k % 2 == 0 else TILTS[1 + (k // 2 + shard_index) % (len(TILTS) - 1)]
+        units[2] = G_UNITS[(k + shard_index) % len(G_UNITS)]  # every unit with every band over the shards
+        axis = False
+    elif k >= 0 and rng.random() < 0.25:
+        band = GBANDS[rng.integers(0, len(GBANDS))]
+    units = tuple(units)
+    gmag = None if band is None else draw_g(rng, band, units[2])
+    cfg = make_config(rng, ctx, axis_aligned=axis, tilt=tilt, gmag=gmag)
+    gclass = f'{cfg["gmag"]:g}' if band is None else 'band ' + band[0]
     axis = bool(axis)
     positional = i % 3 == 1
     layout = LAYOUTS[rng.integers(0, len(LAYOUTS))]
     f32 = rng.random() < 0.3
-    units = (LEN_UNITS[rng.integers(0, 3)], WAV_UNITS[rng.integers(0, 3)], G_UNITS[rng.integers(0, 3)])
     npix = 1 if layout == 'scalar' else int(rng.integers(1, 12))
     det = detectors(rng, npix)
     special = rng.random()
@@ -439,18 +618,21 @@ def run_case(rng, ctx, K, mon, i=0):
         ctx.hit('per-pixel incident beams ' + ('tilted up' if sgn > 0 else 'tilted down'))
     if per_pixel_b1:
         cfg = dict(cfg, tilt=float(np.max(tl)))
-    mon.meta = {'family': 'direct', 'tilt': float(cfg['tilt']), 'gmag': cfg['gmag'], 'layout': layout,
-                'axis_aligned': axis, 'per_pixel_incident': bool(per_pixel_b1)}
+    mon.meta = {'family': 'direct', 'tilt': float(cfg['tilt']), 'gmag': cfg['gmag'], 'g_class': gclass,
+                'layout': layout, 'axis_aligned': axis, 'per_pixel_incident': bool(per_pixel_b1)}
     mon.path = None
     try:
         call(K.scattering_angles_with_gravity, args, mon, positional)
     except Exception:  # noqa: BLE001 judged through PY_UNWIND
         pass
     ctx.hit(f'tilt:{cfg["tilt"]:g}')
-    ctx.hit(f'|g|:{cfg["gmag"]:g}')
-    sig = ('angles', f'tilt{cfg["tilt"]:g}', f'g{cfg["gmag"]:g}', 'f32' if f32 else 'f64', layout, units)
+    ctx.hit('|g|:' + gclass)
+    ctx.hit('|g| unit: ' + units[2])
+    if band is not None:
+        ctx.hit('|g|:' + gclass + (', horizontal beam' if cfg['tilt'] == 0 else ', tilted beam'))
+    sig = ('angles', f'tilt{cfg["tilt"]:g}', 'g' + gclass, 'f32' if f32 else 'f64', layout, units)
     # reflectometry variant on the same configuration
-    if rng.random() < 0.5 or i < len(AXIS_KINDS):
+    if rng.random() < 0.5 or i < N_AXIS or (band is not None and cfg['tilt'] == 0):
         mon.meta = dict(mon.meta, family='yz')
         try:
             call(K.scattering_angle_in_yz_plane, args, mon, positional)
@@ -468,6 +650,10 @@ def frame_case(rng, ctx, K, mon, j):
     h = geom.perpendicular_unit(rng, ghat[None, :])[0].astype(np.float64)
     n = int(rng.integers(1, 6))
     parallel = j % 8 == 7
+    # the frame consists of unit vectors whatever the magnitude of gravity: every |g| band, the fixed magnitudes
+    # and the band below the judged domain (counted) in turn
+    bands = [*GBANDS, None, DEEP_BAND]
+    band = bands[(j // 8 + j) % len(bands)]
     ang = rng.uniform(-1.5, 1.5, size=n)
     if parallel:
         b1 = (np.cos(ang)[:, None] * h[None, :] - np.sin(ang)[:, None] * ghat[None, :]) * 10.0 ** rng.uniform(-1, 2)
@@ -477,9 +663,13 @@ def frame_case(rng, ctx, K, mon, j):
         ang = rng.uniform(-1.5, 1.5, size=n)  # elevation out of the horizontal
         b1 = (np.cos(ang)[:, None] * h[None, :] - np.sin(ang)[:, None] * ghat[None, :]) * 10.0 ** rng.uniform(-1, 2)
     ub = LEN_UNITS[rng.integers(0, 3)]
-    ug = G_UNITS[rng.integers(0, 3)]
+    ug = G_UNITS[rng.integers(0, len(G_UNITS))]
     beam = sc.vectors(dims=['pixel'], values=b1, unit=ub) if (len(b1) > 1 or rng.random() < 0.5) else sc.vector(b1[0], unit=ub)
-    g = sc.vector(ghat * max(gmag, 1e-3), unit=ug)
+    if band is None:
+        g = sc.vector(ghat * max(gmag, 1e-3), unit=ug)
+    else:
+        g = sc.vector(ghat * (draw_g(rng, band, ug) / float(si.lookup(sc.Unit(ug))[0])), unit=ug)
+    ctx.hit('frame: |g| ' + ('fixed magnitudes' if band is None else 'band ' + band[0]))
     mon.meta = {'family': 'frame', 'parallel_to_gravity': parallel}
     try:
         if j % 2:
@@ -489,48 +679,207 @@ def frame_case(rng, ctx, K, mon, j):
     except Exception:  # noqa: BLE001  judged by the monitor
         pass
     mon.meta = {}
-    return ('frame', ub, ug, 'parallel' if parallel else 'tilted', beam.ndim)
+    return ('frame', ub, ug, 'parallel' if parallel else 'tilted', beam.ndim, 'fixed' if band is None else band[0])
 
 
-def limits_case(rng, ctx, K, mon):
-    """lambda -> 0 and |g| -> 0 equal the gravity-free two_theta of the same beams (observed)."""
-    cfg = make_config(rng, ctx, gmag=1e-11 if rng.random() < 0.5 else 9.80665)
+LIMIT_MODES = ('lambda = 0', 'lambda -> 0 (1e-140..1e-6 angstrom)', '|g| = 1e-11 m/s^2',
+               '|g| -> 0 (1e-149 in its unit .. 1e-11 m/s^2), horizontal beam',
+               '|g| -> 0 (1e-149 in its unit .. 1e-11 m/s^2), tilted beam')
+
+
+def limits_case(rng, ctx, K, mon, s=0):
+    """lambda -> 0 and |g| -> 0 equal the gravity-free two_theta of the same beams (observed): lambda exactly 0
+    and tiny; |g| = 1e-11 m/s^2 and |g| log-uniform down to the bottom of the judged domain, in every unit,
+    with a horizontal (optimised path) and a tilted (general path) incident beam."""
+    mode = LIMIT_MODES[s % len(LIMIT_MODES)]
+    ug = 'm/s^2'
+    tilt = None
+    if mode.startswith('lambda'):
+        gmag = 9.80665
+    elif mode.startswith('|g| ='):
+        gmag = 1e-11
+    else:
+        ug = G_UNITS[rng.integers(0, len(G_UNITS))]
+        gmag = draw_g(rng, ('->0', -149.0, None), ug, hi_si=1e-11)
+        tilt = 0.0 if 'horizontal' in mode else TILTS[int(rng.integers(1, len(TILTS)))]
+    cfg = make_config(rng, ctx, gmag=gmag, tilt=tilt)
     det = detectors(rng, 6)
-    lam0 = cfg['gmag'] > 1
+    lam0 = mode.startswith('lambda')
     b1 = sc.vector(cfg['b1'], unit='m')
     b2 = sc.vectors(dims=['pixel'], values=det, unit='m')
-    lam = sc.array(dims=['wavelength'], values=[0.0, 0.0] if lam0 else [1.0, 20.0], unit='angstrom')
-    mon.meta = {'family': 'limits', 'tilt': cfg['tilt'], 'gmag': cfg['gmag'], 'lambda_zero': lam0}
+    if mode == 'lambda = 0':
+        lam = [0.0, 0.0]
+    elif lam0:
+        lam = list(10.0 ** rng.uniform(-140, -6, size=2))
+    else:
+        lam = [1.0, 20.0]
+    lam = sc.array(dims=['wavelength'], values=lam, unit='angstrom')
+    mon.meta = {'family': 'limits', 'tilt': cfg['tilt'], 'gmag': cfg['gmag'], 'mode': mode}
     mon.path = None
+    fg = float(si.lookup(sc.Unit(ug))[0])
     res = K.scattering_angles_with_gravity(incident_beam=b1, scattered_beam=b2, wavelength=lam,
-                                           gravity=sc.vector(cfg['ghat'] * cfg['gmag'], unit='m/s^2'))
+                                           gravity=sc.vector(cfg['ghat'] * (cfg['gmag'] / fg), unit=ug))
     free = K.two_theta(incident_beam=b1, scattered_beam=b2)
-    d = float(np.max(np.abs(res['two_theta'].transpose(['pixel', 'wavelength']).values
-                            - free.values[:, None])))
+    with np.errstate(invalid='ignore'):
+        d = np.abs(res['two_theta'].transpose(['pixel', 'wavelength']).values - free.values[:, None])
+    d = float(np.max(np.where(np.isfinite(d), d, np.inf)))
     off = abs(float(np.dot(cfg['b1'], cfg['ghat'])))
     allow = 2 * off / float(np.linalg.norm(cfg['b1'])) if off <= 1.001e-10 else 0.0
     ctx.event('limit')
+    ctx.hit('limit: ' + mode)
     ctx.dev('limit: |two_theta - gravity-free|', d - allow)
     if d > 1e-11 + allow:
-        ctx.violation('limit', f'two_theta differs from the gravity-free angle by {d:.3g} rad although '
-                      + ('lambda = 0' if lam0 else '|g| = 1e-11 m/s^2'), dict(mon.meta), lambda_zero=lam0)
-    return ('limits', lam0, f'tilt{cfg["tilt"]:g}')
+        ctx.violation('limit', f'two_theta differs from the gravity-free angle by {d:.3g} rad although ' + mode
+                      + (f' (|g| = {cfg["gmag"] / fg:.3g} {ug})' if not lam0 else ''),
+                      dict(mon.meta, g_unit=ug, g_value=cfg['gmag'] / fg), lambda_zero=lam0)
+    return ('limits', mode, f'tilt{cfg["tilt"]:g}', ug)
+
+
+# every broadcast relation scipp allows between the dims of wavelength and of scattered_beam
+LAYOUT_RELATIONS = [
+    # name, scattered_beam dims, wavelength dims
+    ('both 0-d', [], []),
+    ('equal 1-d', ['det'], ['det']),
+    ('equal 2-d', ['det', 'voxel'], ['det', 'voxel']),
+    ('equal 2-d transposed', ['voxel', 'det'], ['det', 'voxel']),
+    ('wavelength 0-d, beam 1-d', ['det'], []),
+    ('wavelength 0-d, beam 2-d', ['det', 'voxel'], []),
+    ('wavelength = leading dim of beam', ['det', 'voxel'], ['det']),
+    ('wavelength = trailing dim of beam', ['voxel', 'det'], ['det']),
+    ('beam 0-d, wavelength 1-d', [], ['det']),
+    ('beam = leading dim of wavelength', ['det'], ['det', 'tof']),
+    ('beam = trailing dim of wavelength', ['det'], ['tof', 'det']),
+    ('overlapping', ['det', 'voxel'], ['det', 'tof']),
+    ('disjoint', ['voxel'], ['tof']),
+]
+LAYOUT_KINDS = ('dense', 'binned')
+LAYOUT_PATHS = ('horizontal beam', 'tilted beam')
+
+
+def layout_classes():
+    return [f'layout: {kind} wavelength, {rel[0]}, {path}'
+            for rel in LAYOUT_RELATIONS for kind in LAYOUT_KINDS for path in LAYOUT_PATHS]
+
+
+def layout_case(rng, ctx, K, mon, rel, kind, path, variant):
+    """One call per (relation of the dims of wavelength and scattered_beam) x (dense / binned wavelength) x
+    (code path); the reflectometry variant on the horizontal beams. Every (event, pixel) pair of the result is
+    judged against the construction by the ordinary monitors."""
+    name, bdims, wdims = rel
+    sizes = {'det': int(rng.integers(2, 5)), 'voxel': int(rng.integers(2, 4)), 'tof': int(rng.integers(2, 4))}
+    tilt = 0.0 if path == 'horizontal beam' else [1e-7, 1e-3, 1e-1, 1.0][int(rng.integers(0, 4))]
+    cfg = make_config(rng, ctx, tilt=tilt, gmag=[1.0, 9.80665, 100.0][int(rng.integers(0, 3))])
+    ub, uw, ug = LEN_UNITS[rng.integers(0, 3)], WAV_UNITS[rng.integers(0, 3)], G_UNITS[rng.integers(0, len(G_UNITS))]
+    fb, fw, fg = (float(si.lookup(sc.Unit(u))[0]) for u in (ub, uw, ug))
+    f32 = rng.random() < 0.3
+    dt = 'float32' if f32 else 'float64'
+    bshape = [sizes[d] for d in bdims]
+    det = detectors(rng, int(np.prod(bshape, dtype=int))).reshape([*bshape, 3]) / fb
+    b2 = sc.vectors(dims=bdims, values=det, unit=ub) if bdims else sc.vector(det, unit=ub)
+    wshape = tuple(sizes[d] for d in wdims)
+    nbin = int(np.prod(wshape, dtype=int))
+
+    def lam(n):
+        return (rng.uniform(1e-3 if f32 else 0.0, 100.0, size=n) * 1e-10 / fw).astype(dt)
+
+    contiguous = True
+    if kind == 'dense':
+        w = sc.array(dims=wdims, values=lam(nbin).reshape(wshape), unit=uw, dtype=dt) if wdims else \
+            sc.scalar(lam(1)[0].item(), unit=uw, dtype=dt)
+    else:
+        bs = rng.integers(0, 6, size=nbin)
+        bs[int(rng.integers(0, nbin))] = int(rng.integers(1, 6))  # at least one event
+        contiguous = variant % 2 == 0
+        if contiguous:
+            w = ops.make_binned(lam(int(bs.sum())), bs, wdims, wshape, uw, dtype=dt)
+        else:
+            # the bins lie in the event buffer in another order, separated by events that belong to no bin
+            order = rng.permutation(nbin)
+            gaps = rng.integers(0, 3, size=nbin + 1)
+            begin = np.zeros(nbin, dtype=np.int64)
+            pos = int(gaps[0])
+            for q in order:
+                begin[q] = pos
+                pos += int(bs[q]) + int(gaps[q + 1])
+            data = sc.array(dims=['event'], values=lam(pos), unit=uw, dtype=dt)
+            w = sc.bins(begin=sc.array(dims=wdims, values=begin.reshape(wshape), unit=None, dtype='int64'),
+                        end=sc.array(dims=wdims, values=(begin + bs).reshape(wshape), unit=None, dtype='int64'),
+                        dim='event', data=data)
+    # incident beam: one for all, or one per element of a dim the other operands carry (same tilt class)
+    span = list(dict.fromkeys([*bdims, *wdims]))
+    per = span[variant // 2 % len(span)] if span and variant // 2 % 3 == 2 else None
+    up = -geom.v3(cfg['ghat'])
+    if per is None:
+        b1 = sc.vector(cfg['b1'] / fb, unit=ub)
+    else:
+        n1 = sizes[per]
+        tl = np.where(rng.random(n1) < 0.5, 0.0, tilt)
+        tl[int(rng.integers(0, n1))] = tilt
+        L1 = 10.0 ** rng.uniform(-1, 2, size=n1)
+        b1s = np.array([(L * (np.cos(si.LD(t)) * geom.v3(cfg['h']) + np.sin(si.LD(t)) * up)).astype(np.float64)
+                        for L, t in zip(L1, tl, strict=True)])
+        b1 = sc.vectors(dims=[per], values=b1s / fb, unit=ub)
+        ctx.hit('layout: one incident beam per element of a dim of the other operands')
+    args = {'incident_beam': b1, 'scattered_beam': b2, 'wavelength': w,
+            'gravity': sc.vector(cfg['ghat'] * (cfg['gmag'] / fg), unit=ug)}
+    mon.meta = {'family': 'layout', 'tilt': float(tilt), 'gmag': cfg['gmag'], 'relation': name,
+                'wavelength_kind': kind, 'contiguous_bins': bool(contiguous),
+                'per_element_incident': per is not None}
+    mon.path = None
+    positional = variant % 3 == 1
+    try:
+        call(K.scattering_angles_with_gravity, args, mon, positional)
+    except Exception:  # noqa: BLE001 judged through PY_UNWIND
+        pass
+    if tilt == 0:
+        try:
+            call(K.scattering_angle_in_yz_plane, args, mon, positional)
+        except Exception:  # noqa: BLE001
+            pass
+    mon.meta = {}
+    ctx.hit(f'layout: {kind} wavelength, {name}, {path}')
+    if kind == 'binned':
+        ctx.hit('layout: binned wavelength, ' + ('contiguous event buffer' if contiguous else
+                                                  'bins out of order in the event buffer, with foreign events'))
+    return ('layout', name, kind, path, 'f32' if f32 else 'f64', per is not None, contiguous)
 
 
 # ---------------------------------------------------------------- driver ---
 def plan(tier, seed):
     n = 16
-    return [{'cases': 300 if tier == 'quick' else 20000, 'sweeps': 15 if tier == 'quick' else 800}
+    return [{'cases': 300 if tier == 'quick' else 20000, 'sweeps': 15 if tier == 'quick' else 800,
+             'layout_reps': 1 if tier == 'quick' else 40}
             for _ in range(n)]
 
 
 def requirements(tier):
+    gclasses = [f'{g:g}' for g in GMAGS] + ['band ' + b[0] for b in GBANDS]
+    fns = ('scattering_angles_with_gravity', 'scattering_angle_in_yz_plane', 'beam_aligned_unit_vectors')
+    events = {'scattering_angles_with_gravity': 200, 'path.generic': 50, 'path.orthogonal': 30,
+              'scattering_angle_in_yz_plane': 10, 'yz.refused': 10,
+              'beam_aligned_unit_vectors': 100, 'frame.refused': 5, 'binding.scattering_angles_with_gravity': 20,
+              'binding.scattering_angle_in_yz_plane': 10, 'continuity': 50, 'limit': 10}
+    for fn in fns:
+        events['judged.|g| below 1e-12 in its unit: ' + fn] = 16
+        events['judged.|g| below 1e-12 in its unit, horizontal beam: ' + fn] = 16
+    for rel in LAYOUT_RELATIONS:
+        for kind in LAYOUT_KINDS:
+            events[f'judged.layout: {kind} wavelength, {rel[0]}, scattering_angles_with_gravity'] = 16
+            events[f'judged.layout: {kind} wavelength, {rel[0]}, scattering_angle_in_yz_plane'] = 8
     return {
-        'events': {'scattering_angles_with_gravity': 200, 'path.generic': 50, 'path.orthogonal': 30,
-                   'scattering_angle_in_yz_plane': 10, 'yz.refused': 10,
-                   'beam_aligned_unit_vectors': 100, 'frame.refused': 5, 'binding.scattering_angles_with_gravity': 20, 'binding.scattering_angle_in_yz_plane': 10, 'continuity': 50, 'limit': 10},
-        'forced': [f'tilt:{t:g}' for t in TILTS] + [f'|g|:{g:g}' for g in GMAGS] + ['detector above beam', 'per-pixel incident beams tilted up', 'per-pixel incident beams tilted down']
-        + ['axis-aligned: ' + k for k in AXIS_KINDS],
+        'events': events,
+        'forced': [f'tilt:{t:g}' for t in TILTS] + ['|g|:' + g for g in gclasses]
+        + ['|g|:band ' + b[0] + p for b in GBANDS for p in (', horizontal beam', ', tilted beam')]
+        + ['|g|:band ' + DEEP_BAND[0]] + ['|g| unit: ' + u for u in G_UNITS]
+        + ['frame: |g| band ' + b[0] for b in [*GBANDS, DEEP_BAND]] + ['frame: |g| fixed magnitudes']
+        + ['limit: ' + m for m in LIMIT_MODES]
+        + ['detector above beam', 'per-pixel incident beams tilted up', 'per-pixel incident beams tilted down']
+        + ['axis-aligned: ' + k for k in AXIS_KINDS]
+        + layout_classes()
+        + ['layout: binned wavelength, contiguous event buffer',
+           'layout: binned wavelength, bins out of order in the event buffer, with foreign events',
+           'layout: one incident beam per element of a dim of the other operands'],
+        'counters': {'out of judged domain: |g|^2 underflows float64': 16},
     }
 
 
@@ -548,27 +897,42 @@ def run(shard, ctx):
     with tr:
         for i in range(shard['cases']):
             before = ctx.n_violations
-            sig, trivial, args = run_case(rng, ctx, K, mon, i)
+            sig, trivial, args = run_case(rng, ctx, K, mon, i, shard['index'])
             ctx.case(sig, trivial=trivial)
             if i < 2 or (ctx.n_violations > before and len(ctx.samples) < 6):
                 ctx.sample({'signature': sig, 'args': {k: describe(v) for k, v in args.items()}})
+        v = shard['index']
+        for _rep in range(shard['layout_reps']):
+            for rel in LAYOUT_RELATIONS:
+                for kind in LAYOUT_KINDS:
+                    for path in LAYOUT_PATHS:
+                        before = ctx.n_violations
+                        ctx.case(layout_case(rng, ctx, K, mon, rel, kind, path, v))
+                        v += 1
+                        if ctx.n_violations > before and len(ctx.samples) < 8:
+                            ctx.sample({'family': 'layout', 'relation': rel[0], 'wavelength': kind, 'path': path})
         for j in range(shard['sweeps'] * 4):
             ctx.case(frame_case(rng, ctx, K, mon, j))
-        for _ in range(shard['sweeps']):
+        for _ in range(shard['sweeps']):  # noqa: B007
             ctx.case(tilt_sweep(rng, ctx, K, mon))
-            ctx.case(limits_case(rng, ctx, K, mon))
+            ctx.case(limits_case(rng, ctx, K, mon, _))
 
 
 FINDING_PREDICATES = {}
 
 TECHNIQUE = ('runtime monitors (sys.monitoring) on both gravity code paths and the reflectometry variant; '
-             'long-double re-evaluation of the documented construction; tilt-sweep continuity and limit monitors')
+             'long-double re-evaluation of the documented construction for every (event, pixel) pair of the result; '
+             'tilt-sweep continuity and limit monitors')
 LEVEL_TEXT = ('exploration: every observed return of scattering_angles_with_gravity / scattering_angle_in_yz_plane '
               'is compared with the documented construction (beam raised by delta along -g/|g|) at 1e-12 rad '
               '(1e-5 single precision) with the conditioning of atan2 accounted for; which private implementation '
               'ran is observed so both paths are known to be covered; continuity over a forced tilt sweep across '
-              'the dispatch threshold, the lambda->0 / g->0 limits and the refusal of the reflectometry variant '
-              'are checked on observed values. Sampled inputs, not a proof.')
+              'the dispatch threshold, the lambda->0 / g->0 limits (lambda and |g| exactly at and log-uniformly towards '
+              '0, |g| down to 1e-149 in every unit) and the refusal of the reflectometry variant are checked on '
+              'observed values. Every run contains every broadcast relation between the dims of wavelength (dense and '
+              'binned, contiguous or not) and scattered_beam on both paths and every |g| band with a horizontal and a '
+              'tilted beam; the result must span the union of the operand dims with the bins of the wavelength. '
+              'Sampled inputs, not a proof.')
 LEVEL_NOTE = ('trusted: numpy long double, scipp containers, h and m_n from scipp.constants, the docstring '
               'construction as specification')
 DESIGN_REF = 'DESIGN.md section 4, C04'
